@@ -31,6 +31,10 @@ RULE = (
     "e other column stalls; sub-identifiers beyond 32 bits (2^32, 2^32+4, 2^63, 2^64+1, 2^70)"
     " that go back to an arc which is larger modulo 2^32; the lenient mode is passed as a str"
     "ing equal to, not identical with, the constant."
+    " A second agent answers one chosen OID with an error-status for ever (v1 and v2c; status"
+    " 1/2/5/13/19, error-index 0/1/5, bindings echoed or absent) or cuts one GETBULK answer t"
+    "o 0..2 bindings: every operation ends within 2*(instances+roots)+4 requests and never re"
+    "peats the refused request."
 )
 ASSUMPTIONS = [
     "every requested column is answered (truncation belongs to C02)",
